@@ -118,6 +118,45 @@ CLAIMED["C02"] = dict(
     note="Trusted: as C11 plus contract W for reedsolo/unireedsolomon decoders (about 600 lines of third-party Berlekamp-Massey/Chien/Forney "
          "code, modelled as a parameter); W is refuted by the dependency for codecs 1/2 with erasures on rare patterns: known finding F19.")
 
+_ECC_NOTE = ("Trusted: Lean kernel and standard axioms; per-file model lean/Pff/Model/Ecc.lean validated by replaying the recorded hash/check/"
+             "decode calls of real runs; PARTIAL: the theorems cover the per-file block logic for arbitrary hash/decoder; entry scanning "
+             "(proved separately as C14), field splitting, intra-ecc of path/size, counters and OS effects are decided by differential "
+             "execution of the real tools, not by a composed theorem.")
+CLAIMED["C04"] = dict(
+    text="Kernel-checked theorems over a model of the per-file repair loops of both tools with an ARBITRARY hash and an ARBITRARY decoder "
+         "(any bytes or failure, i.e. damage of any weight to file, track, or both, truncated and over-long tracks): every block written "
+         "equals the input block, or matches the stored hash, or passes the ecc check with the returned parity; a hash-matching block is "
+         "never altered in default mode; failed blocks are copied through; outputs are block-wise as stated and have exactly the input "
+         "length (decoder only assumed length-preserving); a failed block prevents 'completely repaired' and the run exits non-zero. "
+         "'Within the decoding radius' is judged on real runs by the oracle (re-encoding), the tools' own guard being hash-or-check.",
+    design="§6 C04", technique="Lean 4 proof (invariant of the repair loop for arbitrary decoder) + recorded-call correspondence on real runs",
+    note=_ECC_NOTE)
+CLAIMED["C03"] = dict(
+    text="Kernel-checked theorems (proved part, names …_partial): for a located entry the block loops of both tools report no corruption and "
+         "write nothing on the track generated for the same content - every content/size incl. empty, every message-length function, every "
+         "deterministic hash, every decoder (never consulted); exit 0. Uses the C10 layout-agreement theorems; the check clause for "
+         "--no_fast_check is C11_accepts. End-to-end clause (all processed, 0 corrupted/skipped, nothing written, relocated root, single-file "
+         "input, long/odd names) decided by differential execution of the real tools each run.",
+    design="§6 C03", technique="Lean 4 proof (per-file logic, via layout agreement) + end-to-end differential execution of the tools",
+    note=_ECC_NOTE)
+CLAIMED["C01"] = dict(
+    text="Kernel-checked theorems (proved part, names …_partial): if every assembled block is intact-and-accepted or detected-and-decoded to "
+         "the original with verifying hash/parity, the file written is exactly the original (whole tool) / original protected region + "
+         "damaged tail verbatim (header tool), completely repaired, exit 0. The per-block premise follows from C02_decode_exact_* + "
+         "C11_accepts under contract W for damage within capacity (and no hash collision in default mode); that instantiation and the "
+         "entry level are decided by differential execution: real generate / damage-within-capacity (at the bound, natural erasures "
+         "counted) / correct runs.",
+    design="§6 C01", technique="Lean 4 proof (per-file logic under a per-block repair premise) + end-to-end differential execution at the capacity bound",
+    note=_ECC_NOTE + " Contract W of the third-party decoders as in C02; codecs 1/2 with erasure handling excluded (F19).")
+CLAIMED["C13"] = dict(
+    text="Kernel-checked theorems (proved part): on a track truncated at ANY offset the blocks whose hash+parity lie wholly before the cut are "
+         "assembled identically and the repair loop writes the same bytes for them; every output has the input's length (arbitrary hash and "
+         "decoder), so the file of the cut entry is never damaged. Entries wholly before the cut keep their bounds by C14_call. Normal "
+         "termination and identical handling of earlier entries on real prefixes (cuts in preamble, markers, every field, between hash and "
+         "parity, entry boundaries; thorough: every offset) decided by differential execution.",
+    design="§6 C13", technique="Lean 4 proof (prefix stability of assembly and repair loop, length preservation) + cut-offset sweep on the real tools",
+    note=_ECC_NOTE)
+
 NOT_YET = {}
 
 props = [json.loads(l) for l in open(os.path.join(VERIF, "properties.jsonl"))]
